@@ -167,6 +167,48 @@ def sigPythonNode : Option NodeInfo → Str
 /-- `PythonNode(hash=True).state()` = `str(hash_value(value))` (`nodes.py:290-300`). -/
 def statePythonNode (v : PyVal) : Str := (hashValue sha v).render
 
+/-- The `hash` attribute of a `PythonNode`: `False`, `True`, or a callable (`custom f`: `f v = str(self.hash(v))`). -/
+inductive HashOpt where
+  | off
+  | on
+  | custom (f : PyVal → Str)
+
+/-- `PythonNode.state()` (`nodes.py:272-300`) for a node that holds a plain value; `value = none`: `no_default`.
+`None` for an unset value; `"0"` without hashing; `str(self.hash(value))` for a callable; else `str(hash_value(value))`. -/
+def statePythonNodeOpt (h : HashOpt) (value : Option PyVal) : Option Str :=
+  match value with
+  | none => none
+  | some v =>
+    match h with
+    | .off => some ['0']
+    | .on => some (hashValue sha v).render
+    | .custom f => some (f v)
+
+/-- The attrs fields of a `PythonNode` that matter for its state. -/
+structure PNode where
+  hash : HashOpt
+  value : Option PyVal
+
+/-- `PythonNode.save` -/
+def PNode.save (n : PNode) (v : PyVal) : PNode := { n with value := some v }
+
+/-- The wrapper `collect_utils.collect_dependency` builds around a PythonNode whose value is still unset (the node is the
+product of another task): `attrs.evolve(node, value=node)` — a copy whose `value` is the node itself; every other
+field, `hash` included, is kept.  `inner` is a reference: the producer's `save` is seen through it. -/
+structure PWrapper where
+  hash : HashOpt
+  inner : PNode
+
+def wrapDependency (n : PNode) : PWrapper := ⟨n.hash, n⟩
+
+/-- `state()` of the wrapper: its own value is a node (never `no_default`); `load()` looks through it
+(`nodes.py:262-267`).  An inner value that is still unset is outside the model (`none`) unless hashing is off. -/
+def stateWrapper (w : PWrapper) : Option Str :=
+  match w.hash with
+  | .off => some ['0']
+  | .on => w.inner.value.map fun v => (hashValue sha v).render
+  | .custom f => w.inner.value.map f
+
 /-! ### the `hash_path` memo -/
 
 variable (md5 : Bytes → Str)
